@@ -27,7 +27,7 @@ open Jinns.Wrappers
 inductive Obs where
   | value (out : Vec) (shape : List Nat)
   | error (kind : String)
-deriving Repr, BEq, DecidableEq
+deriving Repr, DecidableEq
 
 def Obs.isError : Obs → Bool
   | .error _ => true
@@ -177,5 +177,35 @@ def holdsSpinn (eqT : EqType) (R M : Nat) (nets : List (List Layer)) (calls : Li
     ++ (pairs calls).map (fun (a, b) =>
       if a.t == b.t && a.x == b.x && a.obs != b.obs then some "bare-and-full-parameters-differ"
       else none))
+
+/-! ### the model's trace (what the driver compares the observations with; `JinnsProofs/C10.lean`
+proves that it satisfies the predicates above for every configuration and every list of calls) -/
+
+def resObs : Except String Vec → Obs
+  | .ok v => .value v [v.length]
+  | .error e => .error e
+
+/-- the record the model produces for one call -/
+def modelRec (slices : List (Option OutSlice)) (shared : Bool)
+    (model : List Val → Bool → Option OutSlice → Except String Vec) (args : List Val) (bare : Bool) :
+    CallRec :=
+  { args := args, bare := bare,
+    outs := slices.map (fun sl => resObs (model args bare sl)),
+    common := if shared then some (resObs (model args bare none)) else none }
+
+/-- the model of a HYPERPINN call (the code path: `jnp.split` at `cumsum[:-1]`, reshape, combine) -/
+def modelHyper (eqT : EqType) (hyperparams : List String) (hyperNet : List Layer)
+    (innerSpec : List LayerSpec) (inT outT : TDesc) (eq : List (String × Val))
+    (args : List Val) (bare : Bool) (sl : Option OutSlice) : Except String Vec :=
+  hyperCall eqT hyperparams innerSpec inT.applyIn outT.applyOut sl args
+    (if bare then .bare hyperNet else .full hyperNet eq)
+
+/-- the record the SPINN model produces for one call -/
+def modelSpinnRec (eqT : EqType) (R M : Nat) (nets : List (List Layer))
+    (c : Option (List Vec) × List Vec × Bool) : SpinnCall :=
+  { t := c.1, x := c.2.1, bare := c.2.2,
+    obs := match spinnCall eqT R M c.1 c.2.1 (if c.2.2 then .bare nets else .full nets []) with
+      | .ok (v, shape) => .value v.flatten shape
+      | .error e => .error e }
 
 end Jinns.Holds
